@@ -628,8 +628,20 @@ fn owner_is(ctx: &Ctx, p: &str) -> bool {
 
 pub fn run_trace(trace: &Trace, ctx: &mut Ctx) -> RunOutcome {
     let mut nodes: Vec<NodeRt> = Vec::new();
-    for _ in 0..trace.nodes {
-        match guarded(|| RLN::new(DEPTH, Cursor::new("{}".to_string()))) {
+    for ni in 0..trace.nodes {
+        // every fourth scenario builds its last node from caller-supplied resources (key file and witness graph bytes)
+        let custom = trace.seed % 4 == 0 && ni + 1 == trace.nodes;
+        let made = if custom {
+            #[cfg(not(feature = "arkzkey"))]
+            let zkey: &[u8] = rln::circuit::ZKEY_BYTES;
+            #[cfg(feature = "arkzkey")]
+            let zkey: &[u8] = rln::circuit::ARKZKEY_BYTES;
+            ctx.counters.inc("reach.node_from_custom_resources");
+            guarded(|| RLN::new_with_params(DEPTH, zkey.to_vec(), rln::circuit::graph_from_folder().to_vec(), Cursor::new(Vec::<u8>::new())))
+        } else {
+            guarded(|| RLN::new(DEPTH, Cursor::new("{}".to_string())))
+        };
+        match made {
             Ok(Ok(r)) => {
                 let model = IdealTree::new(DEPTH);
                 let mut window = VecDeque::new();
